@@ -310,10 +310,10 @@ func evalContainers(c *runner.Ctx, fs, other []fieldSpec, msgMode bool) {
 	mp.SetMapIndex(reflect.ValueOf(2), p1)
 	parent := reflect.New(reflect.StructOf([]reflect.StructField{
 		{Name: "Kids", Type: mv.Type(), Tag: `valid:"required"`},
-		{Name: "L", Type: sl.Type(), Tag: `valid:"exist"`},
+		{Name: "L", Type: sl.Type(), Tag: `valid:"exist,le=1|at most one"`}, // (a rule of the field itself behind the marker: judged after the elements)
 		{Name: "One", Type: st, Tag: `valid:"exist"`},
 		{Name: "PP", Type: reflect.PtrTo(reflect.PtrTo(st)), Tag: `valid:"exist"`},
-		{Name: "LPP", Type: reflect.SliceOf(reflect.PtrTo(reflect.PtrTo(st))), Tag: `valid:"required"`},
+		{Name: "LPP", Type: reflect.SliceOf(reflect.PtrTo(reflect.PtrTo(st))), Tag: `valid:"ge=1,required,le=2"`},
 		{Name: "MP", Type: reflect.MapOf(reflect.TypeOf(""), reflect.PtrTo(reflect.PtrTo(st))), Tag: `valid:"exist"`},
 	}))
 	parent.Elem().Field(0).Set(mv)
